@@ -63,7 +63,7 @@ class MainRun:
         return Opaque('ClapApp', possible=None)
 
     def _load_project(self, I, fd, args, self_arg, node):
-        d = I.deref(args[0])
+        d = norm(I.deref(args[0]))          # opening <dir>/zinoma.yml resolves . and .. like any file-system access
         pj = self.projects.get(d)
         if pj is None:
             return err(Opaque('Error', msg='Failed to open config file', site=0, file=''))
@@ -142,6 +142,11 @@ class MainRun:
                 if p not in mr.projects and not any(q == p or q.startswith(p + '/') for q in list(w.paths) + list(w.always_dirs)):
                     return err(Opaque('IoError', msg='not found', kind=REnum('ErrorKind', 'NotFound')))
                 return ok(p)
+            if name.endswith('path::absolute'):
+                a = I.deref(args[0])
+                if not a.startswith('/'):
+                    a = mr.root_dir.rstrip('/') + '/' + a
+                return ok(a)                     # lexical: keeps . and .. (documented behaviour on Unix)
             if name.endswith('stderrlog::new'):
                 return Opaque('StderrLog')
             return orig_path(I, name, args, node)
@@ -502,3 +507,96 @@ def stage(prop, tier, repo, jobs):
             else:
                 out['inconclusive'].append('%s: %s: %s; not reproduced natively (replay %s)' % (tag, ob['name'], ob.get('detail'), rpath))
     return out
+
+
+# ---------------------------------------------------------------------------------------------------- C18: entry independence
+def entry_independence(arg):
+    """A target of an imported project resolves to the same domain value (project directory, input and output resources,
+    command directories) whether main() is entered in the importing project or in the target's own project."""
+    import time
+    from ..actors import init_types
+    from ..prog import Program
+    from . import resolve
+    tier, repo = arg
+    t0 = time.time()
+    out = {'obligations': [], 'error': None, 'paths': 0, 'functions': []}
+    try:
+        prog = Program(repo)
+        init_types(prog)
+        sh = [x for x in resolve.shapes(tier) if x.name == 'two_projects_overlapping_names'][0]
+        rr = resolve.ResolverRun(prog, sh)
+        chosen = [('q', 'a', 'dep', 'b'), ('q', 'a', 'out', 'b.output'), ('r', 'a', 'dep', 'q::a')]
+        pins = [b == z3.BoolVal(tuple(r) in chosen) for b, r in zip(sh.bits, sh.refs)]
+        projects = {}
+        for pj, d in sh.projects.items():
+            v = rr.yaml_project(pj)
+            if pj == sh.root_name:
+                imps = {key_of(o): (True, o, '..' + od['dir']) for o, od in sh.projects.items() if o != pj}
+                v = v.with_field('imports', RMap(imps))
+            projects[d['dir']] = v
+        dirs = sorted({d['dir'] for d in sh.projects.values()})
+
+        def resolved(root_dir, projs, requested):
+            world = VfsWorld([], always_dirs=tuple(['/'] + dirs))
+            mr = MainRun(prog, world, projs, root_dir, requested, False, False, engine_result=z3.BoolVal(False))
+            ps = mr.explore(pins)
+            out['paths'] += len(ps)
+            out['functions'] = sorted(set(out['functions']) | mr.I.stats['fns'])
+            res = []
+            for p in ps:
+                if p.outcome != 'return':
+                    res.append(('outcome', p.outcome, str(p.value)[:200]))
+                    continue
+                runs = [d for k, d in p.effects if k == 'engine_run']
+                if not runs:
+                    res.append(('no_engine', str(p.value)[:200]))
+                    continue
+                tg = runs[0]['actors'].get('targets')
+                vals = {}
+                for k_, (g, kv, tv) in tg.entries.items():
+                    vals[resolve.tid_key(kv)] = repr(tv)
+                res.append(('targets', vals))
+            return res
+        a = resolved('/r', projects, ['q::a'])
+        b = resolved('/q', {'/q': projects['/q']}, ['a'])
+        ob = {'name': 'imported_target_resolves_identically_from_every_entry_project', 'verdict': 'unsat', 'checked_paths': len(a) + len(b)}
+        if len(a) != 1 or len(b) != 1 or a[0][0] != 'targets' or b[0][0] != 'targets':
+            ob['verdict'] = 'sat'
+            ob['detail'] = 'entered in the importing project: %s; entered in its own project: %s' % (str(a)[:300], str(b)[:300])
+        else:
+            for u in (('q', 'a'), ('q', 'b')):
+                va, vb = a[0][1].get(u), b[0][1].get(u)
+                if va != vb:
+                    ob['verdict'] = 'sat'
+                    ob['detail'] = '%s::%s resolves to different values: from the importing project %s / from its own project %s' % (u[0], u[1], (va or '')[:400], (vb or '')[:400])
+                    break
+        out['obligations'].append(ob)
+    except Unsupported as e:
+        out['error'] = 'unsupported: %s' % e
+    except Exception as e:   # pragma: no cover
+        import traceback
+        out['error'] = 'exception: %s\n%s' % (e, traceback.format_exc()[-1500:])
+    out['wall_s'] = round(time.time() - t0, 1)
+    return out
+
+
+def native_entry_independence(repo):
+    """Real binary: build q::a from the importing project, then ask for a from q's own directory: everything must be skipped."""
+    import os
+    import shutil
+    import tempfile
+    from ..native import build_native, run_native
+    from . import resolve
+    from .resolve_run import write_projects
+    sh = [x for x in resolve.shapes('quick') if x.name == 'two_projects_overlapping_names'][0]
+    present = [('q', 'a', 'dep', 'b'), ('q', 'a', 'out', 'b.output'), ('r', 'a', 'dep', 'q::a')]
+    binpath, info = build_native(repo)
+    root = tempfile.mkdtemp(prefix='zx-entry-', dir=os.environ.get('VERIF_SCRATCH', '/var/tmp'))
+    try:
+        write_projects(root, sh, present)
+        r1 = run_native(binpath, root + '/r', ['q::a'], None, timeout=60)
+        r2 = run_native(binpath, root + '/q', ['a'], None, timeout=60)
+        sp = lambda r: [l.split('script="echo ')[1].rstrip('"') for l in r['log'] if l.startswith('proc_spawn') and 'script="echo ' in l]
+        return {'run1_rc': r1['rc'], 'run1_spawned': sp(r1), 'run2_rc': r2['rc'], 'run2_spawned': sp(r2), 'run2_stderr': r2['stderr'][-300:]}
+    finally:
+        shutil.rmtree(root, ignore_errors=True)
